@@ -10,6 +10,7 @@ import Model.Rabin
 import Spec.Normalize
 import Spec.Encode
 import Model.Container
+import Spec.Conforms
 
 open Lean Wire
 
@@ -153,6 +154,12 @@ def handle (j : Json) : String :=
             "],\"sync\":\"" ++ hex h.sync ++ "\"}"
       "{\"header\":" ++ hs ++ ",\"records\":[" ++ ",".intercalate (recs.map ofVal) ++ "],\"end\":" ++
         (match e with | .eof => "\"eof\"" | .error e => "{\"err\":\"" ++ e.name ++ "\"}") ++ "}"
+  | "spec.conforms" =>
+    match parseReq j with
+    | .error e => "{\"perr\":\"" ++ e.name ++ "\"}"
+    | .ok (s, env) =>
+      let b := Spec.conforms FUEL env (getB j "strict") (getB j "dtn") s (getV j "value")
+      "{\"ok\":" ++ (if b then "true" else "false") ++ "}"
   | "skip" =>
     match parseReq j with
     | .error e => "{\"perr\":\"" ++ e.name ++ "\"}"
